@@ -222,6 +222,20 @@ def run_case(c):
     raise ValueError(kind)
 
 
+def same_prior(a, b, cores):
+    """the very object; after a trip through the process pool (pickling) the same prior id, type and limits"""
+    if cores == 1:
+        return a is b
+    return type(a) is type(b) and a.id == b.id and a.lower_limit == b.lower_limit and a.upper_limit == b.upper_limit
+
+
+def attribute_grid(res, path):
+    try:
+        return [hexf(x) for x in res.attribute_grid(path)]
+    except AttributeError:      # a cell without an instance (it was never fitted)
+        return None
+
+
 def fit_run(c):
     """A real grid search through the public GridSearch.fit() (or _fit) with the completion order steered by a
     permuting job runner (number_of_cores == 1) or left to the real Process pool (number_of_cores > 1)."""
@@ -264,7 +278,7 @@ def fit_run(c):
     csv_rows = []
     for ln in lines[1:]:
         parts = [x.strip() for x in ln.split(",")]
-        csv_rows.append([int(parts[0])] + [hexf(float(x)) for x in parts[1:]])
+        csv_rows.append([int(parts[0])] + [None if x == "" else hexf(float(x)) for x in parts[1:]])
     lls = res.log_likelihoods()
     b = builders[-1]
     return {
@@ -278,16 +292,18 @@ def fit_run(c):
         "native_shape": list(lls.native.shape),
         "log_likelihoods": [hexf(x) for x in lls],
         "native_flat": [hexf(x) for x in np.asarray(lls.native).flatten(order="C")],
-        "log_evidences": [hexf(x) for x in res.log_evidences()],
-        "fom_evidence": [hexf(x) for x in res.figure_of_merits(use_log_evidences=True, relative_to_value=1.0)],
-        "attribute_grid": {nm: [hexf(x) for x in res.attribute_grid("%s.centre" % nm)] for nm in c["grid"]},
+        "log_evidences": [None if sm.log_evidence is None else hexf(sm.log_evidence) for sm in res.samples]
+        if any(sm.log_evidence is None for sm in res.samples) else [hexf(x) for x in res.log_evidences()],
+        "fom_evidence": [] if any(sm.log_evidence is None for sm in res.samples)
+        else [hexf(x) for x in res.figure_of_merits(use_log_evidences=True, relative_to_value=1.0)],
+        "attribute_grid": {nm: attribute_grid(res, "%s.centre" % nm) for nm in c["grid"]},
         "best": [i for i, sm in enumerate(res.samples) if sm is res.best_samples],
         "builder_paths": [None if isinstance(r, Placeholder) else cell_limits(r.paths.model, c["grid"]) for r in b.results],
         "builder_results": [None if isinstance(r, Placeholder) else hexf(r.log_likelihood) for r in b.results],
         "job_index": [[j.index, j.number] for j in log.get("jobs", [])],
         "job_cells": [cell_limits(j.model, c["grid"]) for j in log.get("jobs", [])],
         "progress": progress,
-        "others_same": all(getattr(getattr(sm.model, nm), attr) is getattr(getattr(model, nm), attr)
+        "others_same": all(same_prior(getattr(getattr(sm.model, nm), attr), getattr(getattr(model, nm), attr), cores)
                            for sm in res.samples for nm, _, _ in pri for attr in ATTRS
                            if isinstance(getattr(getattr(model, nm), attr), af.Prior)
                            and getattr(getattr(model, nm), attr) not in grid),
